@@ -188,6 +188,29 @@ pub fn exec(case: &str) -> Exec {
                     ex.tags.push(format!("{}:{}:{}", fmt, level_name(l), if *ok { "accept" } else { "reject" }));
                 }
             }
+            // the path entry points (format and gzip decoding taken from the file name) gate exactly like the
+            // in-memory reader: same verdict, same diagnostic levels, at every level
+            if std::str::from_utf8(&bytes).is_ok() {
+                let dir = format!("{}/c07-read-{}", std::env::var("VERIF_SCRATCH").unwrap_or_else(|_| "/verif/work".into()), std::process::id());
+                let _ = std::fs::create_dir_all(&dir);
+                for gz in [false, true] {
+                    let path = format!("{}/in.{}{}", dir, if fmt == "pdb" { "pdb" } else { "cif" }, if gz { ".gz" } else { "" });
+                    let data = if gz { use std::io::Write as _; let mut e = flate2::write::GzEncoder::new(Vec::new(), flate2::Compression::fast()); e.write_all(&bytes).unwrap(); e.finish().unwrap() } else { bytes.clone() };
+                    if std::fs::write(&path, &data).is_err() { continue; }
+                    for (i, l) in LEVELS.iter().enumerate() {
+                        let by_path = guarded(|| ReadOptions::default().set_level(*l).read(&path));
+                        let (ok, lv) = match &by_path { Ok(Ok((_, d))) => (true, diag_levels(d)), Ok(Err(d)) => (false, diag_levels(d)), Err(_) => continue };
+                        if let Some((ok0, _, d0)) = &outcomes[i] {
+                            if ok != *ok0 || lv != diag_levels(d0) {
+                                ex.failures.push(Failure::new("path-read-gates-differently-from-the-in-memory-read", format!("level {}: {} {} vs {} {}", level_name(*l), ok, lv, ok0, diag_levels(d0))).feat("format", fmt).feat("gz", gz));
+                            }
+                        }
+                        ex.tags.push(format!("path-read:{}", if gz { "gz" } else { "plain" }));
+                    }
+                    let _ = std::fs::remove_file(&path);
+                }
+                let _ = std::fs::remove_dir(&dir);
+            }
             // monotone: accepted at stricter => accepted at looser with identical hierarchy and atoms
             for i in 0..3 {
                 for j in (i + 1)..3 {
